@@ -502,14 +502,23 @@ def slot_state(ts):
     ])
 
 
-def run_history(raises, history):
-    """feed one history to a real Terminal.  Returns (lines for the model, impl outputs, oracle failures)."""
+def run_history(raises, history, watcher=False):
+    """feed one history to a real Terminal (directly, or through a TransmissionWatcher that ends with
+    end_all_transmissions).  Returns (lines for the model, impl outputs, oracle failures)."""
     l = L()
     counter = Counter()
     lines, outs, fails = [], [], []
     with quiet(counter):
         observers = [make_observer(r) for r in raises]
-        term = l.Terminal(1, observers)
+        if watcher:
+            from okdmr.dmrlib.transmission.transmission_watcher import TransmissionWatcher
+
+            watch = TransmissionWatcher(observers)
+            watch.ensure_terminal(1)
+            term = watch.terminals[1]
+        else:
+            watch = None
+            term = l.Terminal(1, observers)
         lines.append("t.init " + ("".join("1" if r else "0" for r in raises)))
         outs.append("ok")
         shadow = {1: Shadow(), 2: Shadow()}
@@ -519,17 +528,23 @@ def run_history(raises, history):
         for step, (slot, hexbytes, btype) in enumerate(history):
             try:
                 tok, view = alpha(hexbytes, btype)
-            except BaseException as e:  # noqa: not a parseable burst: not part of the property's domain
-                raise ValueError(f"history element {step} is not parseable: {impl_error(e)}")
-            lines.append(f"t.burst {slot} {tok}")
+            except BaseException:  # noqa: not a parseable burst: outside the property's domain, not fed
+                continue
             burst = l.Burst.from_bytes(bytes.fromhex(hexbytes), burst_type=l.BurstTypes[btype])
             before = [len(o.log) for o in observers]
             try:
-                out = term.process_incoming_burst(burst, slot)
+                if watch is not None:
+                    burst.target_radio_id = 1
+                    burst.timeslot = slot
+                    out = watch.process_burst(burst)
+                else:
+                    out = term.process_incoming_burst(burst, slot)
             except BaseException as e:  # noqa
+                lines.append(f"t.burst {slot} {tok}")
                 outs.append(impl_error(e))
                 fails.append(("process-burst-raises", f"process_incoming_burst raised {type(e).__name__}: {str(e)[:120]} at step {step}", "no exception", impl_error(e)))
                 return lines, outs, fails
+            lines.append(f"t.burst {slot} {tok}")
             ts = term.timeslots[slot]
             news = [o.log[n:] for o, n in zip(observers, before)]
             stream = int.from_bytes(out.stream_no, "big")
@@ -545,6 +560,28 @@ def run_history(raises, history):
             evs = raw_news[0] if observers else []
             fails += shadow[slot].step(step, view, evs, out, ts, stream, seen_streams)
             seen_streams.add(stream)
+        if watch is not None:
+            # end_all_transmissions: every open transmission with a header is ended, by its own kind
+            before = [len(o.log) for o in observers]
+            opened = {s: shadow[s].open for s in (1, 2)}
+            try:
+                watch.end_all_transmissions()
+            except BaseException as e:  # noqa
+                lines.append("t.flush")
+                outs.append(impl_error(e))
+                fails.append(("process-burst-raises", f"end_all_transmissions raised {type(e).__name__}", "no exception", impl_error(e)))
+                return lines, outs, fails
+            news = [o.log[n:] for o, n in zip(observers, before)]
+            lines.append("t.flush")
+            outs.append("|".join(";".join(n) if n else "-" for n in news) if observers else "-")
+            if observers:
+                ended = [e[1] for e in observers[0].raw[before[0]:] if e[0] == "E"]
+                allowed = [opened[s] for s in (1, 2) if opened[s]]
+                if any(e[0] == "S" for e in observers[0].raw[before[0]:]) or any(k not in allowed for k in ended) or len(ended) > len(allowed):
+                    fails.append(("ended-without-open-start", "end_all_transmissions delivered an end that closes no open start of its kind", allowed, ended))
+            for s in (1, 2):
+                if term.timeslots[s].transmission.type.name == "VoiceTransmission":
+                    fails.append(("not-idle-after-end", f"slot {s} still in a voice transmission after end_all_transmissions", "Idle", "VoiceTransmission"))
         lines.append("t.state")
         outs.append(slot_state(term.timeslots[1]) + " / " + slot_state(term.timeslots[2]) + " / " + str(counter.n))
     return lines, outs, fails
@@ -762,27 +799,51 @@ def long_voice(rng, n):
 
 
 # ------------------------------------------------------------------------------------------------
-def evaluate(ctx, desc, raises, history, pairs, sample=False):
-    lines, outs, fails = run_history(raises, history)
-    ctx.case((desc, tuple(raises), tuple(tuple(x) for x in history)), nontrivial=len(history) > 0,
-             sample={"case": desc, "raises": raises, "history_len": len(history), "first_lines": lines[1:4], "first_outputs": outs[1:4]} if sample else None)
-    ctx.count("bursts", len(history))
-    for o in outs[1:-1]:
-        ev = o.split(" ", 4)[-1].split("|")[0] if not o.startswith("ERR") else "ERR"
-        for e in ev.split(";"):
-            ctx.count("event:" + (e.split(":")[0] + ":" + e.split(":")[1][:1] if e not in ("-", "ERR") else e))
-    for kind, what, exp, act in fails:
-        ctx.fail(kind, {"raises": list(raises), "history": history}, f"{what} [{desc}]", expected=exp, actual=act)
-    pairs += list(zip(lines, outs))
-    return outs
+def job_run(job):
+    """one job in a worker process: build the history (if it is a seeded one) and run it on the real code"""
+    import random
+
+    kind = job["kind"]
+    if kind == "random":
+        history = random_history(random.Random(job["seed"]), job["max_len"])
+    elif kind == "long":
+        history = long_voice(random.Random(job["seed"]), job["n"])
+    else:
+        history = job["history"]
+    lines, outs, fails = run_history(job["raises"], history, watcher=job.get("watcher", False))
+    return {"history": history, "lines": lines, "outs": outs, "fails": fails}
+
+
+def workers():
+    import os
+
+    try:
+        w = int(os.environ.get("VERIF_WORKERS", "8"))
+    except ValueError:
+        w = 8
+    return max(1, min(w, os.cpu_count() or 1))
+
+
+def pmap(fn, jobs, nworkers):
+    """results of fn over jobs, in order; a fork pool when it pays off (the library is already imported)"""
+    if nworkers <= 1 or len(jobs) < 16:
+        for j in jobs:
+            yield fn(j)
+        return
+    import multiprocessing as mp
+
+    with mp.get_context("fork").Pool(nworkers) as pool:
+        for r in pool.imap(fn, jobs, chunksize=max(1, min(8, len(jobs) // (nworkers * 8)))):
+            yield r
 
 
 def run(ctx):
     ctx.rule = (
-        "corpus of the three repaired defects; every (state class, symbol class) pair on one slot with the other slot busy; "
-        "random two-slot histories assembled from generated data transmissions (complete, truncated, with lost / repeated / "
-        "foreign bursts, shuffled), voice fragments (header, superframes with lost bursts and late entry, terminator) and "
-        "single random symbols, each under observers that raise / do not raise; one history with > 256 bursts without an end. "
+        "corpus of the three repaired defects; every (state class, symbol class) pair on one slot and on the other slot with "
+        "traffic in between; random two-slot histories assembled from generated data transmissions (complete, truncated, with lost / "
+        "repeated / foreign bursts, shuffled), voice fragments (header, superframes with lost bursts and late entry, terminator) and "
+        "single random symbols, each under observers that raise / do not raise, a quarter of them through a TransmissionWatcher "
+        "that finishes with end_all_transmissions; histories with > 256 bursts without an end. "
         "A case is one history under one observer configuration; distinct = distinct (observers, byte-exact history)."
     )
     ctx.trusted_base += [
@@ -797,23 +858,19 @@ def run(ctx):
         "every burst object is freshly parsed (the tracker mutates the burst it is given)",
         "time slot numbers are 1 or 2",
     ]
+    lib()  # import the library before any worker is forked
     rng = ctx.rng
-    pairs = []
     configs = [[True, False], [False, True], [True, True], [False, False]]
-    # ---- corpus
-    for desc, h in corpus(rng):
-        ref = None
+    jobs = []
+    # ---- corpus: every history under all four observer configurations (group = same answers expected)
+    for g, (desc, h) in enumerate(corpus(rng)):
         for raises in configs:
-            outs = evaluate(ctx, desc, raises, h, pairs, sample=raises == configs[0])
-            if ref is None:
-                ref = outs
-            elif outs[1:] != ref[1:]:
-                ctx.fail("observer-isolation", {"raises": raises, "history": h}, f"results depend on which observers raise [{desc}]", expected=ref[1:4], actual=outs[1:4])
-        ctx.count("corpus")
+            jobs.append({"kind": "explicit", "desc": desc, "raises": raises, "history": h, "group": ("corpus", g), "sample": raises == configs[0]})
     # ---- all (state class, symbol class) pairs
     variants = symbol_variants(rng)
     prefixes = state_prefixes(rng)
     other = [[2] + sym_voice_header(rng), [2] + sym_csbk(rng, preamble=True, btf=3)]
+    n = 0
     for pname, pre in prefixes:
         for vname, sym in variants:
             for slot_mode in range(2):
@@ -826,26 +883,53 @@ def run(ctx):
                         h.append([2] + s)
                         h.append([1] + other[i % 2][1:])
                     h += [[2] + sym, [1] + other[0][1:], [2] + sym_voice_emb(rng)]
-                raises = configs[(len(pairs) + slot_mode) % 4]
-                evaluate(ctx, f"pair {pname} x {vname}", raises, h, pairs, sample=(pname, vname, slot_mode) == ("voice:label2", "ve", 0))
-            ctx.count("pair")
+                jobs.append({"kind": "explicit", "desc": f"pair {pname} x {vname}", "raises": configs[n % 4], "history": h,
+                             "watcher": n % 5 == 4, "count": "pair", "sample": (pname, vname, slot_mode) == ("voice:label2", "ve", 0)})
+                n += 1
     # ---- sequence wrap
     for raises in configs[:2]:
-        evaluate(ctx, "sequence wrap", raises, long_voice(rng, ctx.budget(300, 700)), pairs)
-    # ---- random histories
+        jobs.append({"kind": "long", "desc": "sequence wrap", "raises": raises, "seed": rng.getrandbits(64), "n": ctx.budget(300, 700)})
+    # ---- random histories (built in the workers from their seeds)
     max_len = 400 if ctx.thorough() else 25
-    n_hist = ctx.budget(500, 3500)
-    for i in range(n_hist):
+    for i in range(ctx.budget(1200, 6000)):
+        seed = rng.getrandbits(64)
         ml = max_len if i % 4 else max(5, max_len // 8)
-        h = random_history(rng, ml)
-        raises = configs[i % 4]
-        outs = evaluate(ctx, "random", raises, h, pairs, sample=i == 0)
+        jobs.append({"kind": "random", "desc": "random", "raises": configs[i % 4], "seed": seed, "max_len": ml, "watcher": i % 4 == 3,
+                     "count": "random", "sample": i == 0})
         if i % 10 == 0:
             # the same history under another observer configuration must answer the same
-            o2 = evaluate(ctx, "random", configs[(i + 1) % 4], h, pairs)
-            if o2[1:] != outs[1:]:
-                ctx.fail("observer-isolation", {"raises": configs[(i + 1) % 4], "history": h}, "results depend on which observers raise [random]", expected=outs[1:4], actual=o2[1:4])
-        ctx.count(f"history-len:{min(len(h) // 50 * 50, 400)}+")
+            jobs[-1]["group"] = ("random", i)
+            jobs.append({"kind": "random", "desc": "random", "raises": configs[(i + 1) % 4], "seed": seed, "max_len": ml,
+                         "watcher": i % 4 == 3, "group": ("random", i)})
+    pairs = []
+    groups = {}
+    for job, res in zip(jobs, pmap(job_run, jobs, workers())):
+        history, lines, outs, fails = res["history"], res["lines"], res["outs"], res["fails"]
+        desc, raises = job["desc"], job["raises"]
+        ctx.case((desc, tuple(raises), bool(job.get("watcher")), tuple(tuple(x) for x in history)), nontrivial=len(history) > 0,
+                 sample={"case": desc, "raises": raises, "watcher": bool(job.get("watcher")), "history_len": len(history),
+                         "first_lines": lines[1:4], "first_outputs": outs[1:4]} if job.get("sample") else None)
+        ctx.count("bursts", len(history))
+        ctx.count("via-watcher" if job.get("watcher") else "via-terminal")
+        if job.get("count"):
+            ctx.count(job["count"])
+        if job["kind"] == "random":
+            ctx.count(f"history-len:{min(len(history) // 50 * 50, 400)}+")
+        for o in outs[1:-1]:
+            if o.startswith("ERR"):
+                ctx.count("event:ERR")
+                continue
+            ev = o.split(" ", 4)[-1].split("|")[0]
+            for e in ev.split(";"):
+                ctx.count("event:" + (e.split(":")[0] + ":" + e.split(":")[1][:1] if e != "-" else "-"))
+        for kind, what, exp, act in fails:
+            ctx.fail(kind, {"raises": list(raises), "watcher": bool(job.get("watcher")), "history": history}, f"{what} [{desc}]", expected=exp, actual=act)
+        if "group" in job:
+            ref = groups.setdefault(job["group"], outs)
+            if ref is not outs and ref[1:] != outs[1:]:
+                ctx.fail("observer-isolation", {"raises": list(raises), "watcher": bool(job.get("watcher")), "history": history},
+                         f"results depend on which observers raise [{desc}]", expected=ref[1:4], actual=outs[1:4])
+        pairs += list(zip(lines, outs))
         if len(pairs) > 40000:
             flush(ctx, pairs)
     flush(ctx, pairs)
@@ -864,7 +948,7 @@ def replay(obj):
     if "history" not in inp:
         print(json.dumps(obj, indent=1)[:4000])
         return 1
-    lines, outs, fails = run_history(inp.get("raises", [True, False]), inp["history"])
+    lines, outs, fails = run_history(inp.get("raises", [True, False]), inp["history"], watcher=bool(inp.get("watcher")))
     model = None
     try:
         import common
